@@ -200,6 +200,9 @@ def run(res, tier, seed, replay_script=None):
         last_evalx = None
         for si, st in enumerate(steps):
             t = st.cmd.split()
+            if st.exc is not None and st.exc[0] == "hang" and not gl.still_hangs(drv, scripts[cid], st.cmd, wd):
+                stats["slow_calls_skipped"] = stats.get("slow_calls_skipped", 0) + 1     # completed under the long limit (or not re-run): slow, not a hang
+                break
             if st.exc is not None and st.exc[0] in ("hang",) or (st.exc is not None and st.exc[0].startswith("crash")):
                 res.violation("no-return:" + t[0] if st.exc[0] == "hang" else "crash:" + t[0], "%s -> %s [%s]" % (st.cmd, st.exc, scripts[cid][1]),
                               {"kind": "impl-counterexample", "script": scripts[cid]})
@@ -362,6 +365,7 @@ def run(res, tier, seed, replay_script=None):
     if not ok_ext and not res.violations:
         res.violation("extraction", "extraction of the model failed", {"kind": "proof-break", "log": elog[-2000:]}, no_input=True)
 
+    res.coverage["slow_calls_completed_under_the_long_limit_skipped"] = stats.get("slow_calls_skipped", 0)
     res.coverage.update({
         "evaluations": stats["states"], "distinct_nontrivial": nontrivial,
         "rule": "case = make (random family/rule/dims/depth/order/limits/transform; Global restricted to nested rules) then either load + up to 3 "
